@@ -833,6 +833,8 @@ class SymX:
             ok, v = self.prog.try_const(e, f.mod)
             if ok and isinstance(v, (int, float, str, bool, type(None))):
                 return C(v)
+            if ok and isinstance(v, (tuple, list)) and all(isinstance(x, (int, float, str, bool, type(None))) for x in v) and e.id not in f.mod.funcs:
+                return ("tup" if isinstance(v, tuple) else "list", tuple(C(x) for x in v))
             return ("v", e.id)
         if isinstance(e, ast.Attribute):
             p = attr_path(e)
@@ -904,8 +906,23 @@ class SymX:
                             spec = "".join(str(x.value) for x in fs.values)
                         else:
                             spec = src(fs)
-                    parts.append(("fmt", ev(v.value), v.conversion, spec))
-            return ("fstr", tuple(parts))
+                    val = ev(v.value)
+                    if is_const(val) and v.conversion == -1 and isinstance(val[1], (str, int)) and not isinstance(val[1], bool):
+                        try:
+                            parts.append(C(format(val[1], spec or "")))    # constant folding of a literal under a literal spec
+                            continue
+                        except (ValueError, TypeError):
+                            pass
+                    parts.append(("fmt", val, v.conversion, spec))
+            merged = []
+            for p_ in parts:
+                if is_const(p_) and merged and is_const(merged[-1]) and isinstance(p_[1], str) and isinstance(merged[-1][1], str):
+                    merged[-1] = C(merged[-1][1] + p_[1])
+                else:
+                    merged.append(p_)
+            if len(merged) == 1 and is_const(merged[0]):
+                return merged[0]
+            return ("fstr", tuple(merged))
         if isinstance(e, ast.Call):
             return self.call(e, st, f, depth)
         if isinstance(e, ast.Starred):
